@@ -368,6 +368,27 @@ def check_attr(T, cls, d, acc, grid):
                 "%s = %s wrote %r, read back %r" % (ident, _short(v), wrote, got),
                 {"T": T, "prop": d["prop"], "value": repr(v)},
             )
+    # ---- "exactly those the schema can represent": the inclusive bounds of the XSD type the class is named after, as Python
+    # ints, are representable - they must be accepted (a bound turned exclusive, a range copied from a sibling type)
+    own_t = own_xsd_type(st, types)
+    if own_t is not None and not hasattr(st, "__members__"):
+        fc = xsdkit.model().facets(own_t)
+        for which in ("minInclusive", "maxInclusive"):
+            b = fc.get(which)
+            if b is None or not re.fullmatch(r"-?[0-9]+", b) or not valid_for_any(types, b)[0]:
+                continue
+            el = oxml_parser.makeelement(T)
+            acc.count("schema_bounds_assigned")
+            try:
+                setattr(el, d["prop"], int(b))
+            except (TypeError, ValueError) as e:
+                acc.violation(
+                    "rejects-representable:%s:%s" % (stname, which),
+                    "%s = %s (the %s of %s) was rejected: %s" % (ident, b, which, xsdkit.pfx_tag(own_t), str(e)[:100]),
+                    {"T": T, "prop": d["prop"], "value": b},
+                )
+            except Exception:  # noqa  (other exceptions: judged with the grid above)
+                pass
     # ---- "rejected before anything is written", on an attribute that already HOLDS a value: it must still hold it afterwards
     for v in rejected_vals if good is not None else ():
         el = oxml_parser.makeelement(T)
